@@ -96,12 +96,26 @@ func checkRendered(e *auditevent.AuditEvent, g auditgen.Group, wantIdentity stri
 	return ""
 }
 
+type groupMode struct {
+	g    auditgen.Group
+	held bool
+}
+
+// groupModes: every group is rendered once with the login known first and once released from the hold queue.
+func groupModes(gs []auditgen.Group) []groupMode {
+	var out []groupMode
+	for _, g := range gs {
+		out = append(out, groupMode{g, false}, groupMode{g, true})
+	}
+	return out
+}
+
 func runC14(t *testing.T, run *mc.Run) int {
 	groups := auditgen.Groups(run.Thorough())
 	n, nontriv := 0, 0
 	var samples []any
-	for _, g := range groups {
-		g := g
+	for _, gm := range groupModes(groups) {
+		g, held := gm.g, gm.held
 		n++
 		if len(g.Recs) > 1 {
 			nontriv++
@@ -115,7 +129,9 @@ func runC14(t *testing.T, run *mc.Run) int {
 			ses := g.Session
 			lg := mkLogin(bindPID, "1")
 			snapshot := identity(lg.Source)
-			r.offerLogin(lg)
+			if !held {
+				r.offerLogin(lg) // login known first: the event is rendered directly
+			}
 			r.offerLine(bindLines(ses))
 			for _, rec := range g.Recs {
 				if !r.offerLine(rec.Line + "\n") {
@@ -124,6 +140,9 @@ func runC14(t *testing.T, run *mc.Run) int {
 				}
 			}
 			vsleep(3 * time.Second) // let the reassembler's maintenance flush anything incomplete
+			if held {
+				r.offerLogin(lg) // login last: the event is rendered when it is released from the hold queue
+			}
 			evs, bad := r.w.events()
 			raw = r.w.writes
 			if len(bad) > 0 {
@@ -159,15 +178,19 @@ func runC14(t *testing.T, run *mc.Run) int {
 			for _, rec := range g.Recs {
 				lines = append(lines, rec.Line)
 			}
-			run.Violation("C14:"+g.Kind+":"+strings.Join(strings.Fields(msg)[:2], "_"), map[string]any{"group": lines, "session": g.Session},
-				fmt.Sprintf("audit event %s (result %s, %d args, %d records): %s\nemitted: %v", g.Kind, g.Result, len(g.Args), len(g.Recs), msg, raw))
+			mode := "login-first"
+			if held {
+				mode = "released-from-hold-queue"
+			}
+			run.Violation("C14:"+g.Kind+":"+mode+":"+strings.Join(strings.Fields(msg)[:2], "_"), map[string]any{"group": lines, "session": g.Session, "mode": mode},
+				fmt.Sprintf("audit event %s (result %s, %d args, %d records), %s: %s\nemitted: %v", g.Kind, g.Result, len(g.Args), len(g.Recs), mode, msg, raw))
 		}
 		if len(samples) < 4 && (len(g.Recs) > 2 || n < 3) {
 			samples = append(samples, g.Recs[0].Line)
 		}
 	}
 	cov := mc.Coverage{Level: "exploration", Evaluations: n, Distinct: nontriv, Exhaustive: true, Samples: samples,
-		Rule:  "full product of the audit record-group generator (10 simple record types x result tokens; SYSCALL(+EXECVE argc 0/1/3)(+CWD)(+PATH x0..2)+PROCTITLE(+EOE) x success yes/no; sessions incl. 4294967295), each group's lines fed one by one to the real Auditd.Read (parser -> reassembler -> callback -> tracker) in a synctest bubble with a bound login; emitted UserAction compared field by field with the generating values and with aucoalesce's summary of the same records. distinct_nontrivial = compound groups",
+		Rule:  "full product of the audit record-group generator (10 simple record types x result tokens; SYSCALL(+EXECVE argc 0/1/3)(+CWD)(+PATH x0..2)+PROCTITLE(+EOE) x success yes/no; sessions incl. 4294967295), each group's lines fed one by one to the real Auditd.Read (parser -> reassembler -> callback -> tracker) in a synctest bubble, once with the login known first and once with the login arriving last (event released from the hold queue); emitted UserAction compared field by field with the generating values and with aucoalesce's summary of the same records. distinct_nontrivial = compound groups",
 		Extra: map[string]any{"groups": n}}
 	return run.Finish(cov)
 }
